@@ -1379,6 +1379,18 @@ def cov_cases(chk):
         mut(lambda rs: rs[rng.randrange(len(rs))][3].__setitem__(0, rng.choice(["nan", "inf", "1/2", "9"])))
         mut(lambda rs: rs.append([rs[0][0], list(rs[0][1]), list(rs[0][2]), list(rs[0][3])]))
         mut(lambda rs: [r.__setitem__(3, ["1"] * ncov) for r in rs])
+        # a covariate missing on some (not all) visits of an individual, and on all of them
+        multi = [i for i in present if sum(r[0] == i for r in rows) >= 2]
+        if multi:
+            who = rng.choice(multi)
+            kc = rng.randrange(ncov)
+
+            def partial(rs):
+                idx = [j for j, r in enumerate(rs) if r[0] == who]
+                for j in rng.sample(idx, rng.randrange(1, len(idx))):
+                    rs[j][3][kc] = "nan"
+            mut(partial)
+            mut(lambda rs: [r[3].__setitem__(kc, "nan") for r in rs if r[0] == who])
         mut(lambda rs: rs.append([3, [30 * 1000000, 0], ["nan"] * dim, ["nan"] * ncov]))
         mut(lambda rs: rs.append([3, [30 * 1000000, 0], ["nan"] * dim, ["5"] * ncov]))
     return cases
